@@ -25,6 +25,7 @@ class DG:
         self.capture_rate = capture_rate
         self.minimal_rate = minimal_rate     # rate of minimal shapes: (when t e), (let () e), (and), (or), (begin e)
         self.prelude = []                    # top-level definitions the generated expressions rely on (thunks)
+        self.last = None                     # (ticking expression, variables it reads): leaf() now and then repeats it verbatim
 
     def tk(self, e):
         """a ticking expression, in one of several shapes: the call (tick k e) itself, a call of a procedure of no arguments
@@ -32,6 +33,8 @@ class DG:
         self.k += 1
         t = [S("tick"), self.k, e]
         c = self.rng.random()
+        if isinstance(e, Sym) or closed(e):
+            self.last = (t, {e.name} if isinstance(e, Sym) else set())
         if c < 0.72:
             return t
         if c < 0.86:
@@ -64,6 +67,11 @@ class DG:
 
     def leaf(self, env):
         r = self.rng
+        if self.last is not None and r.random() < 0.12 and self.last[1] <= set(env):
+            # the SAME expression once more (same tick number): textually identical neighbours - (and E E), (when E E), (begin E E) - are
+            # still two evaluations
+            import copy
+            return copy.deepcopy(self.last[0])
         if env and r.random() < 0.5:
             return self.tk(S(r.choice(env)))
         return self.tk(r.randint(0, 30))
@@ -104,6 +112,18 @@ class DG:
             inner = env + names
             nbody = r.randint(0, 2)
             defs = []
+            getter = None
+            if form == "let*" and r.random() < 0.3:
+                # a procedure made in an initialiser reads a variable that a LATER binding of the same let* binds again (or that only an outer
+                # scope / nobody binds at that point): it keeps seeing the binding that was visible where it was made
+                seen = [b[0].name for b in binds]
+                v = r.choice(seen) if seen and r.random() < 0.7 else (r.choice(env) if env else None)
+                if v is not None:
+                    getter = self.var()
+                    binds.append([S(getter), [S("lambda"), [], self.tk(S(v))]])
+                    binds.append([S(v), self.tk(r.randint(40, 60))])
+                    if v not in inner:
+                        inner = inner + [v]
             if r.random() < 0.3:
                 # internal definitions at the head of the body, sometimes named like a variable of an enclosing scope: they are local to this body
                 for _ in range(r.randint(1, 2)):
@@ -111,7 +131,7 @@ class DG:
                     # the initialiser does not mention the name being defined (R7RS: that would refer to the new, still uninitialised binding)
                     defs.append([S("define"), S(dv), self.leaf([v for v in inner if v != dv])])
                     inner = inner + [dv]
-            expr = [S(form), binds] + defs + [sub("body-first", inner) for _ in range(nbody)] + [sub("last", inner)]
+            expr = [S(form), binds] + defs + [sub("body-first", inner) for _ in range(nbody)] + ([[S("list"), [S(getter)], sub("last", inner)]] if getter else [sub("last", inner)])
             if defs and env:
                 # read the enclosing scope's variables after the body
                 return [S("list"), expr] + [S(v) for v in env[:3]]
